@@ -11,10 +11,13 @@
 (*           mod-2^32 reading (32-bit word) and in the integer reading     *)
 (*           (64-bit two's complement word, exact because |.| < 2^34)      *)
 (*                                                                         *)
-(* Where the property says "difference of deltas" it does not say whether  *)
-(* in Z or mod 2^32; the two readings differ only when a delta changes by  *)
-(* 2^31 or more.  Both are specified (Mode "Z" / "W") and the API level    *)
-(* accepts either, consistently within one call.                           *)
+(* The differences of the 32-bit deltas are taken mod 2^32 (Mode "W"): that *)
+(* is the crate's procedure wherever it was defined at all (overflow-       *)
+(* unchecked builds before the fix, every build after it), and results and *)
+(* reading counts are a function of the readings.  The integer reading     *)
+(* (Mode "Z") differs only when a delta changes by 2^31 or more; it is kept *)
+(* as an operator (the "dis" flag tells where the two part) but the API    *)
+(* level no longer admits it.                                              *)
 (***************************************************************************)
 EXTENDS Words
 
